@@ -149,7 +149,7 @@ var curCall *Call
 
 // call runs one library call and emits its event.
 func (sc *Scenario) call(kind string, f func(c *Call)) {
-	c := &Call{sc: sc, kind: kind, site: "-"}
+	c := &Call{sc: sc, kind: kind, site: "-", ops: []string{}}
 	curCall = c
 	panicked, pv := vt.Try(func() { f(c) })
 	curCall = nil
